@@ -9,6 +9,19 @@ fuzz_target!(|data: &[u8]| {
     let url = parts.next().unwrap_or("");
     let source = parts.next().unwrap_or("");
     let ty = parts.next().unwrap_or("script");
+    // URL parsing ignores ASCII tab / CR / LF wherever they occur: removing them beforehand changes
+    // neither whether the URL parses nor the reported host and classification
+    if url.contains(['\t', '\r']) {
+        let stripped: String = url.chars().filter(|c| !matches!(c, '\t' | '\r')).collect();
+        match (Request::new(url, source, ty), Request::new(&stripped, source, ty)) {
+            (Ok(a), Ok(b)) => {
+                assert_eq!(a.hostname, b.hostname, "tab/CR changed the hostname of {:?}", url);
+                assert_eq!((a.is_supported, a.is_third_party, a.request_type.clone()), (b.is_supported, b.is_third_party, b.request_type.clone()));
+            }
+            (Err(_), Err(_)) => {}
+            (a, b) => panic!("tab/CR changed whether {:?} parses: {:?} vs {:?}", url, a.is_ok(), b.is_ok()),
+        }
+    }
     let p = Request::preparsed(url, source, ty, "image", data.len() % 2 == 0);
     let _ = p.get_tokens();
     if let Ok(q) = Request::new(url, source, ty) {
